@@ -1324,6 +1324,9 @@ fn main() {
                     if c.kind == "trajectory" {
                         ctx.add_states(cnt.get("ref_states"), cnt.get("ref_transitions"), cnt.get("trajectory_points_compared"));
                     }
+                    for _ in 0..cnt.get("trajectory_oracle_skipped_tie_explosion") {
+                        ctx.indeterminate();
+                    }
                     ctx.violations(v);
                     for (k, n) in cnt.0.iter() {
                         if *k == "ref_max_states_in_a_level" {
